@@ -9,6 +9,8 @@ CONSTANTS
   MaxMembers <- M10
   MaxClasses = 1
   BaseAlpha <- None
+  MaxBases = 1
+  ClassComments <- NoComment
   TopAlpha <- FTTops
   MaxTops = 1
   CmdKinds <- FTCmds
